@@ -479,6 +479,13 @@ var c15Shapes = []string{
 	// URL-level Tags and a top-level method with the same path and no Tags of its own
 	"JSIGHT 0.3\nTAG @pets\nURL /cats\n  Tags @pets\n  GET\n    200 any\nPOST /cats\n  200 any\nPUT /cats/{id}\n  200 any\n",
 	"JSIGHT 0.3\nTAG @pets\nURL /rpc\n  Tags @pets\n  Protocol json-rpc-2.0\n  Method a\n    Params\n      {}\nGET /rpc\n  200 any\nURL /u\n  GET\n    200 any\nPOST /u\n  Tags @pets\n  200 any\n",
+	// documents that are rejected in every order (ambiguous paths; the same name declared by two blocks of different
+	// kinds; a reference that no block satisfies): if a change makes one order acceptable, the other orders must follow
+	"JSIGHT 0.3\nURL /api/{version}/rpc\n  Protocol json-rpc-2.0\n  Method m\n    Params\n      {}\nGET /api/{v}/status\n  200 any\nTAG @t\n",
+	"JSIGHT 0.3\nURL /api/{version}\nGET /api/{v}\n  200 any\nPOST /other\n  200 any\n",
+	"JSIGHT 0.3\nGET /a/{x}/b\n  200 any\nURL /a/{y}/b\n  POST\n    200 any\nTYPE @t any\n",
+	"JSIGHT 0.3\nGET /u\n  200 @late\nTYPE @other any\nENUM @e\n  [1]\n",
+	"JSIGHT 0.3\nGET /u\n  OperationId same\n  200 any\nPOST /u\n  OperationId same\n  200 any\nTAG @t\n",
 	// one regex type embedded by two types and a response
 	"JSIGHT 0.3\nTYPE @r regex\n  /[a-z]{8}/\nTYPE @a\n  {\"x\": @r}\nTYPE @b\n  {\"y\": @r}\nGET /r\n  200 @r\n",
 	// or-shortcut and regex types, json-rpc
